@@ -1,10 +1,735 @@
-//! Family `run` — stub (replaced by the unit that owns this family).
+//! Family `run` — the real `Runtime` against the evaluator model (C01, C04, C05, C06; the
+//! implementation-level oracles also serve C02 and C03).
+//!
+//! Protocol (one request per line, one answer per line):
+//! ```text
+//! run <hex src> pol=<a|d> plan=<s1,s2,..|->;<f1,..|-> | plan=none [tag=<..>] ast=<annotated AST line>
+//!       -> out=<hex of Display text per printed value, comma separated | none>
+//!          end=<ok | rt:<RuntimeErrorKind variant>@<lo>:<hi> | panic@<file>:<line> | abort | timeout>
+//! rej <hex src>             -> rejected          (front end reported an error; counted, not run)
+//! fmt <bits>                -> <hex of `format!("{}", f64::from_bits(bits))`>
+//! parse <hex text>          -> <bits> | nan | err          (`str::parse::<f64>`)
+//! fmod <bits> <bits>        -> <bits> | nan                (`%`)
+//! cast <bits>               -> <as isize> <as usize> <as u32>
+//! un <floor|ceil|round|sqrt|abs> <bits> -> <bits> | nan
+//! ```
+//! `gen --seed S --n N [--kind main|product|float] [--bias b] [--max-stmts k]` writes request
+//! lines: every generated program text goes through the REAL front end (`pipeline::with_resolved`);
+//! accepted programs become `run` requests carrying the resolver's plan and the AST annotated with
+//! the resolver's facts, rejected ones `rej` requests.
+//! `run` answers requests by executing the shipped pipeline in-process on fresh arenas, inside a
+//! WORKER subprocess whose fd 0/1 are `/dev/null` (`shout` prints to the real stdout, `read_line`
+//! reads the real stdin); a worker that dies is restarted and the in-flight case answered
+//! `end=abort`. Implementation-level oracles that need no model, reported on stderr as
+//! `ORACLE-FAIL <1-based line> [Cxx] <what>`: same result when run twice `[C01]`, with and without
+//! the frame arena `[C02]`, with and without the optimisation plan `[C03]`.
 
-pub fn main(_args: &[String]) -> i32 {
-    eprintln!("family run: not built yet");
-    2
+use std::io::{BufRead, BufReader, Write};
+use std::process::{Command, Stdio};
+use std::sync::Mutex;
+use std::sync::mpsc;
+use std::time::Duration;
+
+use naijascript::arena::Arena;
+use naijascript::process::{HostPolicy, ProcessCaps};
+use naijascript::resolver::Resolver;
+use naijascript::runtime::Runtime;
+use naijascript::syntax::parser::Parser;
+use naijascript::syntax::scanner::Lexer;
+
+use crate::astio::{self, Opts};
+use crate::pipeline;
+use crate::util::{self, Out, Rng};
+
+#[path = "progen.rs"]
+pub mod progen;
+
+pub fn main(args: &[String]) -> i32 {
+    match args.first().map(String::as_str) {
+        Some("gen") => generate(&args[1..]),
+        Some("run") => run_parent(),
+        Some("worker") => worker(&args[1..]),
+        Some("show") => show(&args[1..]),
+        _ => {
+            eprintln!(
+                "usage: nvh run gen --seed S --n N [--kind main|product|float] [--bias b] | nvh run run < requests | nvh run show --seed S --n N"
+            );
+            2
+        }
+    }
 }
 
-/// Constants/tables of the compiled crate this family wants in `nvh dump-tables`
-/// (JSON key, JSON value text).
 pub fn dump_tables(_out: &mut Vec<(String, String)>) {}
+
+// ------------------------------------------------------------------------------------------ gen
+
+fn bias_of(s: Option<&str>) -> progen::Bias {
+    match s {
+        Some("arrays") => progen::Bias::Arrays,
+        Some("scoping") => progen::Bias::Scoping,
+        Some("strings") => progen::Bias::Strings,
+        Some("control") => progen::Bias::Control,
+        Some("numbers") => progen::Bias::Numbers,
+        _ => progen::Bias::Mixed,
+    }
+}
+
+fn ids_str(ids: &[u32]) -> String {
+    if ids.is_empty() { "-".to_string() } else { ids.iter().map(u32::to_string).collect::<Vec<_>>().join(",") }
+}
+
+/// The request line for one program text: `run …` if the front end accepts it, else `rej …`.
+pub fn request_for(src: &str, allow_process: bool, tag: Option<&str>) -> String {
+    request_with(src, allow_process, tag, None)
+}
+
+/// `exp`: the output a model-independent oracle expects (hex per value), checked by the worker.
+pub fn request_with(src: &str, allow_process: bool, tag: Option<&str>, exp: Option<&str>) -> String {
+    let hexsrc = util::hex(src.as_bytes());
+    let r = util::catch(|| {
+        let arena = Arena::new(pipeline::ARENA_CAP).unwrap();
+        pipeline::with_resolved(src, &arena, |root, _d, res| match res {
+            None => None,
+            Some(r) if r.errors.has_errors() => None,
+            Some(r) => {
+                let plan = match r.optimization_plan.as_ref() {
+                    None => "none".to_string(),
+                    Some(p) => {
+                        let s: Vec<u32> = p.removable_stmts.iter().map(|x| x.0).collect();
+                        let f: Vec<u32> = p.removable_function_defs.iter().map(|x| x.0).collect();
+                        format!("{};{}", ids_str(&s), ids_str(&f))
+                    }
+                };
+                let ast = astio::program(&Opts { spans: true, facts: Some(&r.facts) }, root);
+                Some((plan, ast))
+            }
+        })
+    });
+    match r {
+        Ok(Some((plan, ast))) => {
+            let pol = if allow_process { "a" } else { "d" };
+            let mut head = format!("run {hexsrc} pol={pol} plan={plan}");
+            if let Some(e) = exp {
+                head.push_str(&format!(" exp={e}"));
+            }
+            if let Some(t) = tag {
+                head.push_str(&format!(" tag={t}"));
+            }
+            format!("{head} ast={ast}")
+        }
+        _ => format!("rej {hexsrc}"),
+    }
+}
+
+fn generate(args: &[String]) -> i32 {
+    util::silence_panics();
+    let seed = util::opt_u64(args, "--seed", 1);
+    let n = util::opt_u64(args, "--n", 100);
+    let kind = util::opt(args, "--kind").unwrap_or("main");
+    let mut out = Out::new();
+    match kind {
+        "main" => {
+            let mut rng = Rng::new(seed ^ 0xC01);
+            let mut opts = progen::GenOpts::default();
+            let fixed_bias = util::opt(args, "--bias");
+            opts.max_stmts = util::opt_u64(args, "--max-stmts", 40) as usize;
+            let biases = [
+                progen::Bias::Mixed,
+                progen::Bias::Arrays,
+                progen::Bias::Scoping,
+                progen::Bias::Strings,
+                progen::Bias::Control,
+                progen::Bias::Numbers,
+                progen::Bias::Mixed,
+            ];
+            for i in 0..n {
+                opts.bias = if fixed_bias.is_some() { bias_of(fixed_bias) } else { biases[(i % 7) as usize] };
+                let mut r = rng.fork();
+                let src = progen::gen_program(&mut r, &opts);
+                out.line(&request_for(&src, false, None));
+            }
+        }
+        "product" => {
+            for (tag, src) in progen::product_cases() {
+                let t = tag.replace(' ', "_");
+                out.line(&request_for(&src, true, Some(&t)));
+            }
+        }
+        "float" => gen_float(seed, n, &mut out),
+        "c05" => gen_c05(seed, n, &mut out),
+        "files" => {
+            // every *.ns file of a directory (sorted), e.g. the corpus or /repo/tests/stress
+            let dir = util::opt(args, "--dir").unwrap_or(".");
+            let allow = util::flag(args, "--allow-process");
+            let mut paths: Vec<std::path::PathBuf> = match std::fs::read_dir(dir) {
+                Ok(rd) => rd.filter_map(|e| e.ok().map(|e| e.path())).filter(|p| p.extension().is_some_and(|x| x == "ns")).collect(),
+                Err(e) => {
+                    eprintln!("cannot read {dir}: {e}");
+                    return 2;
+                }
+            };
+            paths.sort();
+            for p in paths {
+                if let Ok(src) = std::fs::read_to_string(&p) {
+                    let tag = format!("file={}", p.file_name().and_then(|x| x.to_str()).unwrap_or("?").replace(' ', "_"));
+                    // process execution is allowed for files named `*allowproc*` (they may only
+                    // run /bin/true or /bin/false, the two programs the model's runner knows)
+                    let allow_this = allow || tag.contains("allowproc");
+                    out.line(&request_for(&src, allow_this, Some(&tag)));
+                }
+            }
+        }
+        _ => {
+            eprintln!("unknown --kind {kind}");
+            return 2;
+        }
+    }
+    0
+}
+
+const BOUNDARY_BITS: &[u64] = &[
+    0x0000_0000_0000_0000,
+    0x8000_0000_0000_0000,
+    0x0000_0000_0000_0001,
+    0x000F_FFFF_FFFF_FFFF,
+    0x0010_0000_0000_0000,
+    0x7FEF_FFFF_FFFF_FFFF,
+    0x7FF0_0000_0000_0000,
+    0xFFF0_0000_0000_0000,
+    0x7FF8_0000_0000_0000,
+    0x3FF0_0000_0000_0000,
+    0xBFF0_0000_0000_0000,
+    0x3FB9_9999_9999_999A,
+    0x3FD5_5555_5555_5555,
+    0x4340_0000_0000_0000,
+    0x433F_FFFF_FFFF_FFFF,
+    0x43E0_0000_0000_0000,
+    0xC3E0_0000_0000_0000,
+    0x43F0_0000_0000_0000,
+    0x41F0_0000_0000_0000,
+    0x444B_1AE4_D6E2_EF50,
+    0x3E7A_D7F2_9ABC_AF48,
+    0x3D71_9799_812D_EA11,
+    0x4004_0000_0000_0000,
+    0xC004_0000_0000_0000,
+    0x3FE0_0000_0000_0000,
+    0x3FDF_FFFF_FFFF_FFFF,
+];
+
+fn rand_bits(rng: &mut Rng) -> u64 {
+    match rng.below(8) {
+        0 => *rng.pick(BOUNDARY_BITS),
+        1 => (rng.range(-1000, 1000) as f64).to_bits(),
+        2 => ((rng.range(-100_000, 100_000) as f64) / 100.0).to_bits(),
+        3 => ((rng.range(-1000, 1000) as f64) / 8.0).to_bits(),
+        4 => {
+            // a power of two and its neighbours (asymmetric rounding interval)
+            let e = rng.below(2046) + 1;
+            let b = e << 52;
+            match rng.below(3) {
+                0 => b,
+                1 => b - 1,
+                _ => b + 1,
+            }
+        }
+        5 => {
+            // moderate exponents, random mantissa
+            let e = 1023 - 40 + rng.below(120);
+            (e << 52) | (rng.next() >> 12) | (rng.below(2) << 63)
+        }
+        _ => rng.next(),
+    }
+}
+
+const PARSE_TEXTS: &[&str] = &[
+    "", " ", "1", "12", " 12", "12 ", "3.5", "abc", "1e3", "1E3", "1e+3", "1e-3", "-4", "+2", ".5", "5.", ".", "+", "-", "e5",
+    "1e", "1e+", "inf", "-inf", "+inf", "Infinity", "infinity", "INF", "nan", "NaN", "-nan", "1_0", "0x10", "1.2.3", "١", "1,5",
+    "0", "-0", "0.0", "00012", "1e400", "1e-400", "-1e400", "123456789012345678901234567890", "0.1", "0.30000000000000004",
+    "2.2250738585072014e-308", "4.9e-324", "2.4703282292062327e-324", "2.4703282292062328e-324", "1.7976931348623157e308",
+    "1.7976931348623159e308", "9007199254740993", "9007199254740992.5", "1e23", "8.5e22", "5e-324", "1.0e0", "1.e1", ".1e1",
+];
+
+fn gen_float(seed: u64, n: u64, out: &mut Out) {
+    let mut rng = Rng::new(seed ^ 0xF10A7);
+    for b in BOUNDARY_BITS {
+        out.line(&format!("fmt {b:016x}"));
+        out.line(&format!("cast {b:016x}"));
+        for op in ["floor", "ceil", "round", "sqrt", "abs"] {
+            out.line(&format!("un {op} {b:016x}"));
+        }
+    }
+    for t in PARSE_TEXTS {
+        out.line(&format!("parse {}", util::hex(t.as_bytes())));
+    }
+    for _ in 0..n {
+        let b = rand_bits(&mut rng);
+        out.line(&format!("fmt {b:016x}"));
+        // the Display text must parse back (and exercises the parser on shortest digits)
+        let text = format!("{}", f64::from_bits(b));
+        out.line(&format!("parse {}", util::hex(text.as_bytes())));
+        // a random decimal with up to 25 digits and an exponent
+        let digits: String = (0..1 + rng.below(25)).map(|_| char::from(b'0' + rng.below(10) as u8)).collect();
+        let text = match rng.below(4) {
+            0 => digits.clone(),
+            1 => format!("{}.{}", digits, rng.below(1000)),
+            2 => format!("{}e{}", digits, rng.range(-340, 310)),
+            _ => format!("0.{}", digits),
+        };
+        out.line(&format!("parse {}", util::hex(text.as_bytes())));
+        let c = rand_bits(&mut rng);
+        out.line(&format!("fmod {b:016x} {c:016x}"));
+        out.line(&format!("cast {b:016x}"));
+        let op = *rng.pick(&["floor", "ceil", "round", "sqrt", "abs"]);
+        out.line(&format!("un {op} {b:016x}"));
+    }
+}
+
+// ---------------------------------------------------------------- C05 template oracle (no model)
+
+/// Values of the template programs, with plain Rust value semantics (`clone` = deep copy).
+#[derive(Clone, Debug)]
+enum V {
+    Num(i64),
+    Str(String),
+    Arr(Vec<V>),
+}
+
+impl V {
+    fn show(&self, top: bool) -> String {
+        match self {
+            V::Num(n) => n.to_string(),
+            V::Str(s) => if top { s.clone() } else { format!("\"{s}\"") },
+            V::Arr(xs) => format!("[{}]", xs.iter().map(|x| x.show(false)).collect::<Vec<_>>().join(", ")),
+        }
+    }
+    fn lit(&self) -> String {
+        self.show(false)
+    }
+    fn get_mut(&mut self, path: &[usize]) -> Option<&mut V> {
+        let mut cur = self;
+        for &i in path {
+            match cur {
+                V::Arr(xs) => cur = xs.get_mut(i)?,
+                _ => return None,
+            }
+        }
+        Some(cur)
+    }
+}
+
+fn rand_val(rng: &mut Rng, depth: u32) -> V {
+    match rng.below(if depth == 0 { 2 } else { 4 }) {
+        0 => V::Num(rng.range(0, 99)),
+        1 => V::Str((*rng.pick(&["s", "tt", "é", "long string x", ""])).to_string()),
+        _ => V::Arr((0..rng.below(4)).map(|_| rand_val(rng, depth - 1)).collect()),
+    }
+}
+
+/// A random path that ends at an ARRAY cell of `v` (possibly the root), by walking.
+fn array_path(rng: &mut Rng, v: &V) -> Option<Vec<usize>> {
+    let V::Arr(_) = v else { return None };
+    let mut path = Vec::new();
+    let mut cur = v;
+    loop {
+        let V::Arr(xs) = cur else { unreachable!() };
+        let subs: Vec<usize> = xs.iter().enumerate().filter(|(_, x)| matches!(x, V::Arr(_))).map(|(i, _)| i).collect();
+        if subs.is_empty() || rng.chance(1, 3) {
+            return Some(path);
+        }
+        let i = *rng.pick(&subs);
+        path.push(i);
+        cur = &xs[i];
+    }
+}
+
+fn path_text(p: &[usize]) -> String {
+    p.iter().map(|i| format!("[{i}]")).collect()
+}
+
+/// Programs over three array variables built from copy / nested write / push / pop / reverse /
+/// pass-to-a-mutating-callee steps; the expected output is computed HERE with Rust value semantics,
+/// independently of the Lean model: any sharing between names in the real runtime shows up as a
+/// difference (`ORACLE-FAIL … [C05]`).
+fn gen_c05(seed: u64, n: u64, out: &mut Out) {
+    let mut rng = Rng::new(seed ^ 0xC05);
+    let names = ["a", "b", "c"];
+    for _ in 0..n {
+        let mut vars: Vec<V> = (0..3).map(|_| V::Arr((0..1 + rng.below(3)).map(|_| rand_val(&mut rng, 2)).collect())).collect();
+        let mut src = String::new();
+        let mut exp: Vec<String> = Vec::new();
+        src.push_str("do mutate(p) start\n  p.push(7)\n  p[0] get \"m\"\n  p.reverse()\n  return p\nend\n");
+        src.push_str("do keep(p) start\n  make q get p\n  q.push([p.len()])\n  return p\nend\n");
+        for (i, v) in vars.iter().enumerate() {
+            src.push_str(&format!("make {} get {}\n", names[i], v.lit()));
+        }
+        let in_loop = rng.chance(1, 4);
+        let steps = 3 + rng.below(8);
+        let mut body = String::new();
+        for _ in 0..steps {
+            let x = rng.below(3) as usize;
+            let y = rng.below(3) as usize;
+            match rng.below(8) {
+                0 => {
+                    body.push_str(&format!("{} get {}\n", names[x], names[y]));
+                    vars[x] = vars[y].clone();
+                }
+                1 | 2 => {
+                    // nested write of a scalar, a literal or (a part of) another variable
+                    let Some(mut p) = array_path(&mut rng, &vars[x]) else { continue };
+                    let V::Arr(cell) = vars[x].get_mut(&p).unwrap() else { continue };
+                    if cell.is_empty() {
+                        continue;
+                    }
+                    p.push(rng.below(cell.len() as u64) as usize);
+                    let (text, val) = match rng.below(3) {
+                        0 => {
+                            let v = rand_val(&mut rng, 1);
+                            (v.lit(), v)
+                        }
+                        1 => (names[y].to_string(), vars[y].clone()),
+                        _ => match &vars[y] {
+                            V::Arr(ys) if !ys.is_empty() => {
+                                let k = rng.below(ys.len() as u64) as usize;
+                                (format!("{}[{k}]", names[y]), ys[k].clone())
+                            }
+                            _ => continue,
+                        },
+                    };
+                    body.push_str(&format!("{}{} get {}\n", names[x], path_text(&p), text));
+                    *vars[x].get_mut(&p).unwrap() = val;
+                }
+                3 => {
+                    let Some(p) = array_path(&mut rng, &vars[x]) else { continue };
+                    let (text, val) = if rng.chance(1, 2) {
+                        let v = rand_val(&mut rng, 1);
+                        (v.lit(), v)
+                    } else {
+                        (names[y].to_string(), vars[y].clone())
+                    };
+                    body.push_str(&format!("{}{}.push({})\n", names[x], path_text(&p), text));
+                    if let Some(V::Arr(cell)) = vars[x].get_mut(&p) {
+                        cell.push(val);
+                    }
+                }
+                4 => {
+                    let Some(p) = array_path(&mut rng, &vars[x]) else { continue };
+                    body.push_str(&format!("shout({}{}.pop())\n", names[x], path_text(&p)));
+                    if let Some(V::Arr(cell)) = vars[x].get_mut(&p) {
+                        exp.push(cell.pop().map_or("null".to_string(), |v| v.show(true)));
+                    }
+                }
+                5 => {
+                    let Some(p) = array_path(&mut rng, &vars[x]) else { continue };
+                    body.push_str(&format!("{}{}.reverse()\n", names[x], path_text(&p)));
+                    if let Some(V::Arr(cell)) = vars[x].get_mut(&p) {
+                        cell.reverse();
+                    }
+                }
+                6 => {
+                    // the callee mutates its parameter: only the RESULT changes
+                    body.push_str(&format!("{} get mutate({})\n", names[x], names[y]));
+                    let mut r = vars[y].clone();
+                    if let V::Arr(xs) = &mut r {
+                        xs.push(V::Num(7));
+                        xs[0] = V::Str("m".into());
+                        xs.reverse();
+                    }
+                    vars[x] = r;
+                }
+                _ => {
+                    body.push_str(&format!("{} get keep({})\n", names[x], names[y]));
+                    vars[x] = vars[y].clone();
+                }
+            }
+            if in_loop {
+                continue; // observed once, after the loop
+            }
+            for (i, v) in vars.iter().enumerate() {
+                body.push_str(&format!("shout({})\n", names[i]));
+                exp.push(v.show(true));
+            }
+        }
+        if in_loop {
+            // the same steps inside a one-iteration loop (frame reset between store and use)
+            src.push_str("make once get true\njasi (once) start\nonce get false\n");
+            src.push_str(&body);
+            src.push_str("end\n");
+        } else {
+            src.push_str(&body);
+        }
+        for (i, v) in vars.iter().enumerate() {
+            src.push_str(&format!("shout({})\n", names[i]));
+            exp.push(v.show(true));
+        }
+        let exp_hex: Vec<String> = exp.iter().map(|t| util::hex(t.as_bytes())).collect();
+        out.line(&request_with(&src, false, Some("c05tmpl"), Some(&exp_hex.join(","))));
+    }
+}
+
+/// `show`: print generated program texts (debugging aid).
+fn show(args: &[String]) -> i32 {
+    let seed = util::opt_u64(args, "--seed", 1);
+    let n = util::opt_u64(args, "--n", 3);
+    let mut rng = Rng::new(seed ^ 0xC01);
+    let mut opts = progen::GenOpts::default();
+    opts.bias = bias_of(util::opt(args, "--bias"));
+    for _ in 0..n {
+        let mut r = rng.fork();
+        println!("{}\n=====", progen::gen_program(&mut r, &opts));
+    }
+    0
+}
+
+// --------------------------------------------------------------------------------------- parent
+
+const CASE_TIMEOUT: Duration = Duration::from_secs(60);
+
+fn run_parent() -> i32 {
+    let lines = util::stdin_lines();
+    let exe = std::env::current_exe().expect("current exe");
+    let mut answers: Vec<String> = Vec::with_capacity(lines.len());
+    let mut restarts = 0usize;
+    while answers.len() < lines.len() {
+        let base = answers.len();
+        let mut child = Command::new(&exe)
+            .args(["run", "worker", "--base", &base.to_string()])
+            .env("RUST_BACKTRACE", "0")
+            .stdin(Stdio::piped())
+            .stdout(Stdio::piped())
+            .stderr(Stdio::piped())
+            .spawn()
+            .expect("spawn worker");
+        let mut stdin = child.stdin.take().unwrap();
+        let stdout = child.stdout.take().unwrap();
+        let stderr = child.stderr.take().unwrap();
+        let rest: Vec<String> = lines[base..].to_vec();
+        let feeder = std::thread::spawn(move || {
+            for l in rest {
+                if stdin.write_all(l.as_bytes()).is_err() || stdin.write_all(b"\n").is_err() {
+                    break;
+                }
+            }
+        });
+        // only ORACLE-FAIL lines of the worker are forwarded (abort backtraces are noise)
+        let errs = std::thread::spawn(move || {
+            for l in BufReader::new(stderr).lines().map_while(Result::ok) {
+                if l.starts_with("ORACLE-FAIL") {
+                    eprintln!("{l}");
+                }
+            }
+        });
+        let (tx, rx) = mpsc::channel::<String>();
+        let reader = std::thread::spawn(move || {
+            for l in BufReader::new(stdout).lines().map_while(Result::ok) {
+                if tx.send(l).is_err() {
+                    break;
+                }
+            }
+        });
+        let mut timed_out = false;
+        loop {
+            match rx.recv_timeout(CASE_TIMEOUT) {
+                Ok(l) => answers.push(l),
+                Err(mpsc::RecvTimeoutError::Timeout) => {
+                    timed_out = true;
+                    let _ = child.kill();
+                    break;
+                }
+                Err(mpsc::RecvTimeoutError::Disconnected) => break,
+            }
+            if answers.len() == lines.len() {
+                break;
+            }
+        }
+        let _ = child.kill();
+        let _ = child.wait();
+        let _ = reader.join();
+        let _ = feeder.join();
+        let _ = errs.join();
+        if answers.len() < lines.len() && answers.len() >= base {
+            // the worker died (or hung) on the request after the last answered one
+            if answers.len() == base && restarts > 0 && !timed_out && lines[base].is_empty() {
+                answers.push("bad-request".into());
+            } else {
+                answers.push(if timed_out { "out=none end=timeout".into() } else { "out=none end=abort".into() });
+            }
+            restarts += 1;
+        }
+    }
+    let mut out = Out::new();
+    for a in &answers {
+        out.line(a);
+    }
+    0
+}
+
+// --------------------------------------------------------------------------------------- worker
+
+static LAST_PANIC: Mutex<String> = Mutex::new(String::new());
+
+fn file_stem(path: &str) -> String {
+    let name = path.rsplit('/').next().unwrap_or(path);
+    name.strip_suffix(".rs").unwrap_or(name).to_string()
+}
+
+fn worker(args: &[String]) -> i32 {
+    let base = util::opt_u64(args, "--base", 0) as usize;
+    // requests on a copy of fd 0, answers on a copy of fd 1; then both become /dev/null
+    let (req_fd, ans_fd) = unsafe {
+        let r = libc::dup(0);
+        let a = libc::dup(1);
+        let null_r = libc::open(c"/dev/null".as_ptr(), libc::O_RDONLY);
+        let null_w = libc::open(c"/dev/null".as_ptr(), libc::O_WRONLY);
+        libc::dup2(null_r, 0);
+        libc::dup2(null_w, 1);
+        (r, a)
+    };
+    use std::os::fd::FromRawFd;
+    let req = unsafe { std::fs::File::from_raw_fd(req_fd) };
+    let mut ans = unsafe { std::fs::File::from_raw_fd(ans_fd) };
+    std::panic::set_hook(Box::new(|info| {
+        if let Some(l) = info.location() {
+            *LAST_PANIC.lock().unwrap() = format!("{}:{}", file_stem(l.file()), l.line());
+        }
+    }));
+    for (i, line) in BufReader::new(req).lines().map_while(Result::ok).enumerate() {
+        let a = answer(&line, base + i + 1);
+        if ans.write_all(a.as_bytes()).is_err() || ans.write_all(b"\n").is_err() {
+            return 1;
+        }
+        let _ = ans.flush();
+    }
+    0
+}
+
+fn bits_ans(x: f64) -> String {
+    if x.is_nan() { "nan".into() } else { format!("{:016x}", x.to_bits()) }
+}
+
+fn answer(line: &str, lineno: usize) -> String {
+    let head = line.split(" ast=").next().unwrap_or("");
+    let w: Vec<&str> = head.split_whitespace().collect();
+    match w.as_slice() {
+        ["run", src, pol, _plan, ..] => {
+            let Some(bytes) = util::unhex(src) else { return "bad-request".into() };
+            let Ok(text) = String::from_utf8(bytes) else { return "bad-request".into() };
+            let allow = *pol == "pol=a";
+            let main = exec(&text, true, true, allow);
+            let again = exec(&text, true, true, allow);
+            if again != main {
+                eprintln!("ORACLE-FAIL {lineno} [C01] run twice: {main} vs {again}");
+            }
+            let noframe = exec(&text, false, true, allow);
+            if noframe != main {
+                eprintln!("ORACLE-FAIL {lineno} [C02] frame=Some vs frame=None: {main} vs {noframe}");
+            }
+            let noplan = exec(&text, true, false, allow);
+            if noplan != main {
+                eprintln!("ORACLE-FAIL {lineno} [C03] plan vs no plan: {main} vs {noplan}");
+            }
+            if let Some(exp) = w.iter().find_map(|x| x.strip_prefix("exp=")) {
+                let want = format!("out={exp} end=ok");
+                if main != want {
+                    eprintln!("ORACLE-FAIL {lineno} [C05] value-semantics oracle: got {main} want {want}");
+                }
+            }
+            main
+        }
+        ["rej", _] => "rejected".into(),
+        ["fmt", b] => match u64::from_str_radix(b, 16) {
+            Ok(bits) => util::hex(format!("{}", f64::from_bits(bits)).as_bytes()),
+            Err(_) => "bad-request".into(),
+        },
+        ["parse", h] => match util::unhex(h).and_then(|b| String::from_utf8(b).ok()) {
+            Some(s) => match s.parse::<f64>() {
+                Ok(x) => bits_ans(x),
+                Err(_) => "err".into(),
+            },
+            None => "bad-request".into(),
+        },
+        ["fmod", a, b] => match (u64::from_str_radix(a, 16), u64::from_str_radix(b, 16)) {
+            (Ok(x), Ok(y)) => bits_ans(f64::from_bits(x) % f64::from_bits(y)),
+            _ => "bad-request".into(),
+        },
+        ["cast", a] => match u64::from_str_radix(a, 16) {
+            Ok(x) => {
+                let f = f64::from_bits(x);
+                format!("{} {} {}", f as isize, f as usize, f as u32)
+            }
+            Err(_) => "bad-request".into(),
+        },
+        ["un", op, a] => match u64::from_str_radix(a, 16) {
+            Ok(x) => {
+                let f = f64::from_bits(x);
+                match *op {
+                    "floor" => bits_ans(f.floor()),
+                    "ceil" => bits_ans(f.ceil()),
+                    "round" => bits_ans(f.round()),
+                    "sqrt" => bits_ans(f.sqrt()),
+                    "abs" => bits_ans(f.abs()),
+                    _ => "bad-request".into(),
+                }
+            }
+            Err(_) => "bad-request".into(),
+        },
+        _ => "bad-request".into(),
+    }
+}
+
+fn kind_name(message: &str) -> &'static str {
+    match message {
+        "I/O error" => "Io",
+        "Division by zero" => "DivisionByZero",
+        "Stack overflow" => "StackOverflow",
+        "Index out of bounds" => "IndexOutOfBounds",
+        "Type mismatch" => "TypeMismatch",
+        "Invalid index" => "InvalidIndex",
+        "Unsupported process execution" => "ProcessUnsupported",
+        "Process execution denied" => "ProcessDenied",
+        "Process spawn failed" => "ProcessSpawnFailed",
+        "Process timeout" => "ProcessTimeout",
+        "Process output limit exceeded" => "ProcessOutputLimitExceeded",
+        "Process output no be valid UTF-8" => "ProcessInvalidUtf8",
+        "Invalid process configuration" => "ProcessSpecInvalid",
+        _ => "Unknown",
+    }
+}
+
+/// The shipped pipeline (lex → parse → resolve → run) on fresh arenas; the canonical answer.
+pub fn exec(src: &str, with_frame: bool, with_plan: bool, allow_process: bool) -> String {
+    let r = util::catch(|| {
+        let arena = Arena::new(pipeline::ARENA_CAP).unwrap();
+        let frame = Arena::new(pipeline::ARENA_CAP).unwrap();
+        let lexer = Lexer::new(src, &arena);
+        let mut parser = Parser::new(lexer, &arena);
+        let (root, errs) = parser.parse_program();
+        if !errs.diagnostics.is_empty() {
+            return "rejected".to_string();
+        }
+        let mut resolver = Resolver::new(&arena);
+        resolver.resolve(root);
+        if resolver.errors.has_errors() {
+            return "rejected".to_string();
+        }
+        let policy = HostPolicy { allow_process, process: ProcessCaps::defaults() };
+        let mut rt = Runtime::new_with_host_policy(&arena, if with_frame { Some(&frame) } else { None }, policy);
+        let plan = if with_plan { resolver.optimization_plan.as_ref() } else { None };
+        // a panic inside the run must still let us read the output collected so far
+        let res = util::catch(|| {
+            rt.run_with_analysis(root, &resolver.facts, plan);
+        });
+        let outs: Vec<String> = rt.output.iter().map(|v| util::hex(format!("{v}").as_bytes())).collect();
+        let out = if outs.is_empty() { "none".to_string() } else { outs.join(",") };
+        match res {
+            Err(_) => format!("out={out} end=panic@{}", LAST_PANIC.lock().unwrap()),
+            Ok(()) => match rt.errors.diagnostics.first() {
+                None => format!("out={out} end=ok"),
+                Some(d) => format!("out={out} end=rt:{}@{}:{}", kind_name(d.message), d.span.start, d.span.end),
+            },
+        }
+    });
+    match r {
+        Ok(s) => s,
+        Err(_) => format!("out=none end=panic@{}", LAST_PANIC.lock().unwrap()),
+    }
+}
